@@ -1,5 +1,6 @@
 //! Correspondence harness for the regress verification framework.
 //! Built with RUSTFLAGS="--cfg regress_verif" against /repo's working tree.
+mod api;
 mod dump;
 mod gen;
 
@@ -249,6 +250,9 @@ fn main() {
     match args.get(1).map(|s| s.as_str()) {
         Some("exec") => cmd_exec(&args[2..]),
         Some("cases") => cmd_cases(&args[2..]),
+        Some("api") => api::cmd_api(&args[2..]),
+        Some("escape") => api::cmd_escape(&args[2..]),
+        Some("apicases") => api::cmd_apicases(&args[2..]),
         _ => {
             eprintln!("usage: rvharness exec <seed> <npatterns> <nhays> <budget> [corpus]");
             std::process::exit(2);
